@@ -22,7 +22,7 @@ def _isinf(v):
 
 @harness('C19', 'thick_clouds',
          quick=[dict(n=2, nw=1), dict(n=3, nw=2, _shards=4)],
-         thorough=[dict(n=2, nw=2), dict(n=3, nw=2, _shards=4), dict(n=4, nw=1, _shards=8), dict(n=4, nw=2, _shards=16)],
+         thorough=[dict(n=2, nw=2), dict(n=3, nw=2, _shards=4), dict(n=4, nw=1, _shards=8)],
          covers=['cloud_inside', 'cloud_above_all', 'cloud_below_all'], functions=FUNCS, stubs=STUBS, shard_depth=4,
          outside=['counts beyond those listed'])
 def thick_clouds(ctx, n, nw):
